@@ -8,6 +8,9 @@ pub struct GenCfg {
     pub max_fanout: usize,
     /// use the hostile identifier pool (C09)
     pub hostile_idents: bool,
+    /// hostile identifiers may meet after Rust name mangling and may be `self` (recorded C09 findings, pinned by the
+    /// systematic compile families); off = keywords and awkward names only
+    pub hostile_collisions: bool,
     /// replace some bounds / defaults by value references
     pub value_refs: bool,
     /// explicit tags on some components/alternatives/definitions
@@ -41,6 +44,7 @@ impl GenCfg {
             max_depth: 3,
             max_fanout: 5,
             hostile_idents: false,
+            hostile_collisions: false,
             value_refs: true,
             explicit_tags: true,
             big_bounds: true,
@@ -168,12 +172,12 @@ impl<'r> Gen<'r> {
             };
             let m = mangle_variant(&cand).to_lowercase();
             let f = cand.replace('-', "_");
-            if self.cfg.hostile_idents {
+            if self.cfg.hostile_idents && self.cfg.hostile_collisions {
                 // hostile pool deliberately allows collisions after mangling, but never textual duplicates
                 if out.contains(&cand) {
                     continue;
                 }
-            } else if mangled.contains(&m) || mangled.contains(&f) || RUST_KEYWORDS.contains(&f.as_str()) {
+            } else if mangled.contains(&m) || mangled.contains(&f) || (!self.cfg.hostile_idents && RUST_KEYWORDS.contains(&f.as_str())) || (self.cfg.hostile_idents && (f == "self" || cand.ends_with('-'))) {
                 continue;
             }
             mangled.push(m);
